@@ -330,6 +330,13 @@ pub fn run(ctx: &mut Ctx) {
     one(ctx, &lang, "corpus:D15", "slice", &sv("ééé"), &[iv(-1)]);
     one(ctx, &lang, "corpus:D9", "slice", &sv("abc"), &[iv(1), iv(i64::MAX)]);
     one(ctx, &lang, "corpus:D9", "slice", &sv("abc"), &[iv(i64::MIN), iv(i64::MAX)]);
+    // line breaks are CR and LF, alone or together
+    for t in ["line one\rline two\rline three", "\r", "ab\r", "\ra\r\rb", "é\r日\r😀", "a\r\nb\rc\nd", "\r\r\r"] {
+        one(ctx, &lang, "corpus:bare-cr", "strip_newlines", &sv(t), &[]);
+        one(ctx, &lang, "corpus:bare-cr", "newline_to_br", &sv(t), &[]);
+        one(ctx, &lang, "corpus:bare-cr", "strip", &sv(t), &[]);
+        one(ctx, &lang, "corpus:bare-cr", "size", &sv(t), &[]);
+    }
     one(ctx, &lang, "corpus:trunc-flag", "truncate", &sv("Here is a RUST: 🇷🇺🇸🇹."), &[iv(20)]);
 
     // ---- the context-sensitive lower-casing of capital sigma (not in the Lean model: judged here by
